@@ -416,9 +416,13 @@ def handleApprox (c : Case) : String := Id.run do
           | some d => if pw != d then return s!"viol {c.id} path-not-shortest edge={e} weight={pw} dist={d}"
           | none => return s!"diff {c.id} model-finds-no-spanner-path"
           total := total + pw + g.weight e
+          -- literal: parmcb::dijkstra on a literal 4-ary heap from source(e), walked back from target(e)
+          -- (`Model/HeapAlgo.lean`) must produce EXACTLY this edge list, in this order
+          let lit := (nonSpannerCycleH g R e).1
+          if lit != cyc then return s!"diff {c.id} literal-dijkstra-path edge={e} model=[{showNats lit}] impl=[{showNats cyc}]"
       if !remaining.isEmpty then return s!"viol {c.id} dropped-edges-without-cycle [{showNats remaining}]"
       if total != ret then return s!"viol {c.id} ret returned={ret} emitted-weight={total}"
-      return s!"ok {c.id} {g.n} {g.m} {k} {fi.dim} {D.length} {total} 0 0"
+      return s!"ok {c.id} {g.n} {g.m} {k} {fi.dim} {D.length} {total} {D.length} 0"
     | _, _, _, _, _, _, _, _ => return s!"diff {c.id} parse-approx-lines"
 
 def showOptNats (l : List (Option Nat)) : String :=
